@@ -1,0 +1,8 @@
+//go:build !verif
+
+// Package verifhook provides named instrumentation points for the runtime
+// verification harness. Without the "verif" build tag they compile to nothing.
+package verifhook
+
+// Point is a no-op without the "verif" build tag.
+func Point(string) {}
